@@ -27,6 +27,7 @@ type GenCfg struct {
 	RequiredBias int   // percent of fields required (0 => 20)
 	CountChoices []int // when set, container sizes are drawn from this list
 	HolderBytes  bool  // holders may carry retained unknown-field bytes
+	Twins        bool  // add "twin" fields: same Go type, schema differing in one list<->set or enum<->i64 node at any depth
 	NoNil        bool  // never generate nil containers / binaries / struct pointers
 	// Exclusions for open known findings (counted by the caller).
 	NoID65535        bool
@@ -144,6 +145,53 @@ func genStruct(t *rapid.T, c GenCfg, nest int, label string) *StructSpec {
 			f.Sp = GenSpelling(t)
 		}
 		s.Fields = append(s.Fields, f)
+	}
+	if c.Twins && len(s.Fields) > 0 && rapid.IntRange(0, 3).Draw(t, "twin") == 0 {
+		// the descriptor caches are keyed by Go type plus annotation: two fields whose Go types are
+		// identical but whose Thrift meaning differs somewhere down the annotation must not share entries
+		src := s.Fields[rapid.IntRange(0, len(s.Fields)-1).Draw(t, "twinof")]
+		tw := cloneType(src.Type)
+		var nodes []*TypeSpec
+		var collect func(ts *TypeSpec)
+		collect = func(ts *TypeSpec) {
+			switch ts.Kind {
+			case KList, KSet:
+				nodes = append(nodes, ts)
+				collect(ts.Elem)
+			case KMap:
+				collect(ts.Key)
+				collect(ts.Elem)
+			case KEnum:
+				nodes = append(nodes, ts)
+			case KI64:
+				if ts.Named != "" {
+					nodes = append(nodes, ts)
+				}
+			}
+		}
+		collect(tw)
+		if len(nodes) > 0 {
+			n := nodes[rapid.IntRange(0, len(nodes)-1).Draw(t, "twinnode")]
+			switch n.Kind {
+			case KList:
+				n.Kind = KSet
+			case KSet:
+				n.Kind = KList
+			case KEnum:
+				n.Kind = KI64
+			case KI64:
+				n.Kind = KEnum
+			}
+			id := uint16(rapid.IntRange(0, 300).Draw(t, "twinid"))
+			for used[id] {
+				id++
+			}
+			used[id] = true
+			s.Fields = append(s.Fields, &FieldSpec{ID: id, Name: fmt.Sprintf("Twin%d_%d", len(s.Fields), id), Req: src.Req, Type: tw, GoPtr: src.GoPtr && tw.Kind == src.Type.Kind})
+			if c.Spellings {
+				s.Fields[len(s.Fields)-1].Sp = GenSpelling(t)
+			}
+		}
 	}
 	if maxid >= 4096 {
 		bigIDTypes++
@@ -641,4 +689,15 @@ func GenNamedUniverse(t *rapid.T, prefix string, n int) []*StructSpec {
 		out = append(out, s)
 	}
 	return out
+}
+
+// cloneType deep-copies the container/leaf nodes of a type (struct specs are shared).
+func cloneType(ts *TypeSpec) *TypeSpec {
+	if ts == nil {
+		return nil
+	}
+	o := *ts
+	o.Elem = cloneType(ts.Elem)
+	o.Key = cloneType(ts.Key)
+	return &o
 }
